@@ -205,6 +205,42 @@ PROPS = {
         "level_note": VERUS_TRUST + "shims (assumed std contracts) for rsplit_once(char), rsplit_once(\"nb\"), parse::<i64>, String::from, "
                       "Option::or, rfind(char); Summary::pkgbase()/pkgversion() are proved (unit summary) to return base_of/version_of of PKGNAME exactly when both parts are non-empty.",
     },
+    "C16": {
+        "units": ["scanindex"],
+        "design_ref": "DESIGN.md section 8 / C16",
+        "replay": "scanindex",
+        "level_text": "Unbounded proof on the real functions: ScanIndex::from_reader returns exactly scan_spec of the reader's lines - blank "
+                      "lines skipped, every trimmed line starting with 'PKGNAME=' closes the block collected so far, each record is built from "
+                      "its own block only (the buffer restarts empty), records are in input order, and the first I/O error or rejected block "
+                      "fails the whole read (never a partial list); KeyValue::visit_str is proved to map every key to the trimmed text after "
+                      "the first '=' of the LAST line carrying that (trimmed) key, ignoring lines without '='. The per-field mapping of the serde "
+                      "Deserialize impl (scalar / list fields, the three error cases) is NOT under contract: it is pinned (watch) and decided only "
+                      "by the bounded stand-in (differential search against a field-level oracle) when it changes.",
+        "level_note": VERUS_TRUST + "BufRead::lines as an uninterpreted sequence of Ok(text)/Err lines; str::trim uninterpreted (trimmed); str::lines, "
+                      "split_once('='), starts_with(literal) shims; HashMap<String,String> key model and 'a String is determined by its chars' axioms; "
+                      "impl Deserialize for ScanIndex and str_to_index (serde generics, macro_rules accessors) watched, not verified: index_of(block) is uninterpreted.",
+    },
+    "C17": {
+        "units": ["dewey", "pkgname", "pattern", "plist", "summary", "distinfo", "pkgdb", "pkgpath", "scanindex"],
+        "always_devs": ["letter_value_is_ascii_code"],
+        "design_ref": "DESIGN.md section 8 / C17",
+        "replay": "all",
+        "all_fns": True,
+        "kinds": "execution-hazards",
+        "level_text": "Unbounded proof, for every function under contract in the nine units, of the obligations Verus generates for executable "
+                      "code: every callee precondition at an exec call site (Option/Result::unwrap, str/slice indexing and slicing on char "
+                      "boundaries, Vec indexing), absence of arithmetic overflow/underflow and division by zero, unreachability of panic!/todo!/"
+                      "unreachable!, and termination (decreases) of every loop and recursion. Only failures of these obligation kinds in exec code "
+                      "are C17 violations (a failed functional postcondition is another property's violation). Entry points not under contract are "
+                      "listed in the evidence (coverage.not_under_contract) and are covered only by the bounded panic/hang fuzzer of the thorough tier.",
+        "level_note": VERUS_TRUST + "all assumed std contracts and world functions of the nine units (their shims are assumed not to panic when their stated "
+                      "preconditions hold); 'promptly' is proved as termination only, not as a time bound; allocation failure and stack depth are outside the model "
+                      "(alternate_match recursion depth is bounded by the number of '{' in the pattern).",
+        "not_under_contract": ["impl Deserialize for ScanIndex (serde glue, watched)", "Digest::hash_file/hash_patch/hash_str and the RustCrypto cores (watched, C13)",
+                               "Distinfo::calculate_size/calculate_checksum and verify_* beyond the contracts of unit distinfo that call into the file system",
+                               "PkgDB::open", "derive-generated Debug/Clone/PartialEq/Hash/Ord impls", "serde Serialize/Deserialize derives",
+                               "Summary Display/FromStr are under contract; SummaryStream::flush"],
+    },
     "C19": {
         "units": ["pkgpath", "pattern", "dewey", "pkgname"],
         "always_devs": ["letter_value_is_ascii_code"],
